@@ -184,6 +184,70 @@ Proof.
   - destruct e; reflexivity.
 Qed.
 
+(* ---------------------------------------------------------------- Crash side: the order of first insertion of the summaries *)
+Definition no_summary_put (o : op) : Prop := forall i v, o <> Put (KSummary i) v.
+
+Lemma summary_ids_cons_other o s : no_summary_put o -> summary_ids (o :: s) = summary_ids s.
+Proof. intros H. destruct o as [k v|k]; [|reflexivity]. destruct k; try reflexivity. exfalso. eapply H. reflexivity. Qed.
+
+Lemma summary_ids_frame w : forall s, (forall o, In o w -> no_summary_put o) -> summary_ids (apply_batch s w) = summary_ids s.
+Proof.
+  induction w as [|o w IH]; intros s H; [reflexivity|].
+  rewrite apply_batch_cons, IH by (intros o' Ho'; apply H; right; exact Ho').
+  apply summary_ids_cons_other. apply H. left. reflexivity.
+Qed.
+
+Lemma summary_ids_frame_writes ws : forall s, (forall w o, In w ws -> In o w -> no_summary_put o) ->
+  summary_ids (apply_writes s ws) = summary_ids s.
+Proof.
+  induction ws as [|w ws IH]; intros s H; [reflexivity|].
+  rewrite apply_writes_cons, IH by (intros w' o Hw' Ho; apply (H w' o); [right; exact Hw' | exact Ho]).
+  apply summary_ids_frame. intros o Ho. apply (H w o); [left; reflexivity | exact Ho].
+Qed.
+
+Lemma aux_no_summary w o : aux_batch w -> In o w -> no_summary_put o.
+Proof. intros H Ho i v E. specialize (H o Ho). subst o. discriminate H. Qed.
+
+Lemma bulk_summary_ids s b conf ab : ~ In (b_id b) (summary_ids s) ->
+  summary_ids (apply_batch s (block_bulk b conf ab)) = b_id b :: summary_ids s.
+Proof.
+  intros Hn. unfold block_bulk. rewrite !apply_batch_app.
+  rewrite summary_ids_frame by (intros o Ho; destruct ab; [destruct Ho as [<-|[]]; intros i v E; discriminate E | destruct Ho]).
+  cbn [apply_batch fold_left summary_ids].
+  rewrite summary_ids_frame.
+  2:{ intros o Ho. apply in_map_iff in Ho. destruct Ho as (it & <- & _). intros i v E. discriminate E. }
+  rewrite summary_ids_frame.
+  2:{ intros o Ho. apply in_flat_map in Ho. destruct Ho as (it & _ & Ho). cbn in Ho.
+      destruct Ho as [<-|[<-|[<-|[]]]]; intros i v E; discriminate E. }
+  destruct (existsb (N.eqb (b_id b)) (summary_ids s)) eqn:Ex; [|reflexivity].
+  apply existsb_exists in Ex. destruct Ex as (x & Hx & E). apply N.eqb_eq in E. subst x. contradiction.
+Qed.
+
+Lemma summary_ids_pre s b ab : ~ In (b_id b) (summary_ids s) ->
+  summary_ids (apply_writes s (pre_writes s b ab)) = b_id b :: summary_ids s.
+Proof.
+  intros Hn. rewrite s3_eq. rewrite bulk_summary_ids.
+  - f_equal. apply summary_ids_frame_writes. intros w o Hw Ho. eapply aux_no_summary; [|exact Ho]. apply (s2_aux s b). exact Hw.
+  - rewrite summary_ids_frame_writes; [exact Hn|]. intros w o Hw Ho. eapply aux_no_summary; [|exact Ho]. apply (s2_aux s b). exact Hw.
+Qed.
+
+Lemma summary_ids_commit c s0 s id parent just comm :
+  summary_ids (apply_writes s (writes_of_steps (commit_steps c s0 id parent just comm))) = summary_ids s.
+Proof.
+  apply summary_ids_frame_writes. intros w o Hw Ho.
+  destruct (commit_writes_keys _ _ _ _ _ _ _ _ Hw Ho) as [X|X]; intros i v E; subst o; discriminate X.
+Qed.
+
+Lemma summary_ids_main c s b ab : main_case c s b ab -> ~ In (b_id b) (summary_ids s) ->
+  summary_ids (run1 c s b) = b_id b :: summary_ids s.
+Proof.
+  intros M Hn. unfold run1. rewrite (main_case_batches c s b ab M), apply_writes_app. unfold commit_writes.
+  rewrite summary_ids_commit. apply summary_ids_pre. exact Hn.
+Qed.
+
+(* every id the enumeration lists is (still) stored: no summary is ever deleted or overwritten by another kind of value *)
+Definition ids_stored (s : store) : Prop := forall i, In i (summary_ids s) -> stored s i = true.
+
 (* ================================================================ the bridge *)
 Section Bridge.
 Variable c : cfg.                      (* Crash: epoch length, genesis id *)
@@ -670,13 +734,22 @@ Proof.
   - intros i H. destruct (s3_stored s b ab i H) as [->|H']; [exact Hdi | exact (v_dom _ _ _ V _ H')].
 Qed.
 
+Lemma run1_summary s b ab : main_case c s b ab -> forall i,
+  get_summary (run1 c s b) i = if N.eq_dec i (b_id b) then Some (summary_of b (conf_of s b)) else get_summary s i.
+Proof.
+  intros M i. unfold run1. rewrite (main_case_batches c s b ab M), apply_writes_app.
+  unfold get_summary at 1. unfold commit_writes. rewrite commit_frame by discriminate. apply s3_summary.
+Qed.
+
 (* one import: Node.processBlock on the store against Bft.Model.import on a node that refines it *)
 Theorem import_sim s nd b : wf_cfg c -> refines s nd -> flags_ok s nd -> blk_ok s nd b ->
   let s' := run1 c s b in
   let r := BM.import true bc nd (ablk b) in
   refines s' (fst r) /\ flags_ok s' (fst r) /\
   bft_class (snd r) = crash_class (crash_code s b) /\
-  BN.valid_child (BM.n_repo nd) (ablk b).
+  BN.valid_child (BM.n_repo nd) (ablk b) /\
+  crash_code s b <> 6 /\
+  BM.n_repo (fst r) = if crash_code s b =? 0 then ablk b :: BM.n_repo nd else BM.n_repo nd.
 Proof.
   intros Hc Rf Hfl (Hdi & Hdp & Hwn & Hwf & Hbf) s' r.
   pose proof Rf as [V (best & Hb & Eb) F].
@@ -691,10 +764,12 @@ Proof.
   assert (Refuse : forall code, crash_code s b <> 0 -> crash_code s b <> 6 -> r = (nd, code) ->
             code = crash_class (crash_code s b) -> code < 100 ->
             refines s' (fst r) /\ flags_ok s' (fst r) /\ bft_class (snd r) = crash_class (crash_code s b) /\
-            BN.valid_child (BM.n_repo nd) (ablk b)).
+            BN.valid_child (BM.n_repo nd) (ablk b) /\ crash_code s b <> 6 /\
+            BM.n_repo (fst r) = if crash_code s b =? 0 then ablk b :: BM.n_repo nd else BM.n_repo nd).
   { intros code H0 H6 Er Ec Hlt. unfold s'. rewrite (crash_refused s b H0 H6), Er. cbn [fst snd].
-    split; [exact Rf|]. split; [exact Hfl|]. split; [|exact Hvc]. unfold bft_class.
-    destruct (100 <=? code) eqn:E; [apply N.leb_le in E; lia | exact Ec]. }
+    split; [exact Rf|]. split; [exact Hfl|]. split; [|split; [exact Hvc | split; [exact H6|]]].
+    - unfold bft_class. destruct (100 <=? code) eqn:E; [apply N.leb_le in E; lia | exact Ec].
+    - apply N.eqb_neq in H0. rewrite H0. reflexivity. }
   assert (Er : r = if stored s (b_id b) then (nd, 1) else if negb (stored s (b_parent b)) then (nd, 2)
                    else if negb (accepts c s (b_parent b)) then (nd, 3) else BM.add_and_commit true bc nd (ablk b) false).
   { unfold r, BM.import. change (BT.b_id (ablk b)) with (tr (b_id b)). change (BT.b_parent (ablk b)) with (tr (b_parent b)).
@@ -751,7 +826,7 @@ Proof.
   set (e' := fst (BM.commit_block true bc (B :: R) e B false)) in *.
   assert (S' : forall i, get_summary s' i = if N.eq_dec i (b_id b) then Some (summary_of b (conf_of s b)) else get_summary s i).
   { intro i. rewrite Es'. unfold get_summary at 1. rewrite commit_frame by discriminate. apply s3_summary. }
-  split; [|split; [|split; [reflexivity | exact Hvc]]].
+  split; [|split; [|split; [reflexivity | split; [exact Hvc | split; [discriminate | reflexivity]]]]].
   - constructor; cbn [BM.n_repo BM.n_eng BM.n_best].
     + exact V'.
     + assert (B3 : get_id s' KBest = if sel then Some (b_id b) else get_id s KBest).
@@ -825,7 +900,7 @@ Record sim (s : store) (nd : BM.node) : Prop := mkSim {
 Theorem import_sim_step s nd b : wf_cfg c -> sim s nd -> blk_ok s nd b ->
   sim (run1 c s b) (fst (BM.import true bc nd (ablk b))).
 Proof.
-  intros Hc [Rf Hfl Hi Hfo] Hb. destruct (import_sim s nd b Hc Rf Hfl Hb) as (Rf' & Hfl' & _ & Hvc).
+  intros Hc [Rf Hfl Hi Hfo] Hb. destruct (import_sim s nd b Hc Rf Hfl Hb) as (Rf' & Hfl' & _ & Hvc & _).
   constructor; [exact Rf' | exact Hfl' | apply (BN.import_inv bc (HLb Hc)); assumption |].
   exact (proj1 (proj2 (BMo.import_monotone bc (HLb Hc) true nd (ablk b) Hi Hfo Hvc))).
 Qed.
@@ -846,7 +921,7 @@ Theorem run_fin_trace l : forall s nd, wf_cfg c -> sim s nd -> hist_ok s nd l ->
 Proof.
   induction l as [|b t IH]; intros s nd Hc S H; [split; [exact I | reflexivity]|].
   destruct H as [Hb Ht]. pose proof (import_sim_step s nd b Hc S Hb) as S'.
-  destruct S as [Rf Hfl Hi Hfo]. destruct (import_sim s nd b Hc Rf Hfl Hb) as (Rf' & _ & _ & Hvc).
+  destruct S as [Rf Hfl Hi Hfo]. destruct (import_sim s nd b Hc Rf Hfl Hb) as (Rf' & _ & _ & Hvc & _).
   destruct (BMo.import_monotone bc (HLb Hc) true nd (ablk b) Hi Hfo Hvc) as [H1 _].
   destruct (IH _ _ Hc S' Ht) as [M E].
   cbn [map BMo.fin_trace BMo.monotone_from cfin_trace snd]. cbv zeta in H1.
@@ -964,7 +1039,7 @@ Theorem run_node_ok U l : forall s nd, wf_cfg c -> BO3.tree_consistent bc U ->
 Proof.
   induction l as [|b t IH]; intros s nd Hc HU S H Hok HinU; [exact Hok|].
   cbn [map BN.import_all]. destruct H as [Hb Ht]. pose proof (import_sim_step s nd b Hc S Hb) as S'.
-  destruct S as [Rf Hfl Hi Hfo]. destruct (import_sim s nd b Hc Rf Hfl Hb) as (_ & _ & _ & Hvc).
+  destruct S as [Rf Hfl Hi Hfo]. destruct (import_sim s nd b Hc Rf Hfl Hb) as (_ & _ & _ & Hvc & _).
   apply (IH _ _ Hc HU S' Ht).
   - apply (BO3.import_ok_step bc (HLb Hc) U nd (ablk b) HU); [apply HinU; left; reflexivity | exact Hok | exact Hvc].
   - intros b' Hb'. apply HinU. right. exact Hb'.
@@ -1011,6 +1086,157 @@ Proof.
     pose proof (Hsame id) as Hs. rewrite E1 in Hs. destruct (get_summary s2 id) as [sm2|] eqn:E2; [|discriminate].
     rewrite (proj2 (sim_quality_from_scratch s1 n1 id sm1 Hc S1 E1) Hsp).
     rewrite (proj2 (sim_quality_from_scratch s2 n2 id sm2 Hc S2 E2) Hsp). rewrite Hch. reflexivity.
+Qed.
+
+(* ---------------------------------------------------------------- the abstraction function refines the store *)
+Lemma abs_find s l i : (forall j, In j l -> D j) -> NoDup l -> D i ->
+  BT.find_blk (flat_map (fun id => match get_summary s id with Some sm => [asum id sm] | None => [] end) l) (tr i) =
+  if in_dec N.eq_dec i l then option_map (asum i) (get_summary s i) else None.
+Proof.
+  intros Hd Hnd Hdi. induction l as [|j t IH]; [reflexivity|].
+  inversion Hnd as [|? ? Hnj Hnt]; subst.
+  assert (IH' := IH (fun x Hx => Hd x (or_intror Hx)) Hnt). clear IH.
+  cbn [flat_map]. unfold BT.find_blk in *.
+  destruct (in_dec N.eq_dec i (j :: t)) as [Hin|Hnin].
+  - destruct Hin as [->|Hin].
+    + destruct (get_summary s i) as [sm|] eqn:E; cbn [app find option_map].
+      * change (BT.b_id (asum i sm)) with (tr i). rewrite N.eqb_refl. reflexivity.
+      * rewrite IH'. destruct (in_dec N.eq_dec i t); [contradiction | reflexivity].
+    + assert (Hne : j <> i) by (intros ->; contradiction).
+      destruct (get_summary s j) as [sm|] eqn:E; cbn [app find].
+      * change (BT.b_id (asum j sm)) with (tr j). rewrite (tr_eqb j i (Hd j (or_introl eq_refl)) Hdi).
+        assert (E1 : (j =? i) = false) by (apply N.eqb_neq; exact Hne). rewrite E1, IH'.
+        destruct (in_dec N.eq_dec i t); [reflexivity | contradiction].
+      * rewrite IH'. destruct (in_dec N.eq_dec i t); [reflexivity | contradiction].
+  - assert (Hne : j <> i) by (intros ->; apply Hnin; left; reflexivity).
+    assert (Hnt' : ~ In i t) by (intros H; apply Hnin; right; exact H).
+    destruct (get_summary s j) as [sm|] eqn:E; cbn [app find].
+    + change (BT.b_id (asum j sm)) with (tr j). rewrite (tr_eqb j i (Hd j (or_introl eq_refl)) Hdi).
+      assert (E1 : (j =? i) = false) by (apply N.eqb_neq; exact Hne). rewrite E1, IH'.
+      destruct (in_dec N.eq_dec i t); [contradiction | reflexivity].
+    + rewrite IH'. destruct (in_dec N.eq_dec i t); [contradiction | reflexivity].
+Qed.
+
+Lemma abs_getq s l i : (forall j, In j l -> D j) -> D i ->
+  BM.get_q (map (fun id => (tr id, get_quality s id)) l) (tr i) = if in_dec N.eq_dec i l then get_quality s i else 0.
+Proof.
+  intros Hd Hdi. unfold BM.get_q. induction l as [|j t IH]; [reflexivity|].
+  assert (IH' := IH (fun x Hx => Hd x (or_intror Hx))). clear IH.
+  cbn [map find fst snd]. rewrite (tr_eqb j i (Hd j (or_introl eq_refl)) Hdi).
+  destruct (N.eqb_spec j i) as [->|Hne].
+  - destruct (in_dec N.eq_dec i (i :: t)) as [_|H]; [reflexivity | contradiction H; left; reflexivity].
+  - rewrite IH'. destruct (in_dec N.eq_dec i t) as [Hin|Hnin], (in_dec N.eq_dec i (j :: t)) as [Hin'|Hnin']; try reflexivity.
+    + contradiction Hnin'. right. exact Hin.
+    + destruct Hin' as [E|Hin']; [contradiction Hne | contradiction].
+Qed.
+
+Theorem abs_refines s : Inv c s -> dom s -> BT.wf_repo (abs_repo s) -> refines s (abs s).
+Proof.
+  intros I Hdom Hwf.
+  assert (Er : abs_repo s = flat_map (fun id => match get_summary s id with Some sm => [asum id sm] | None => [] end)
+                                     (filter (stored s) (summary_ids s))).
+  { unfold abs_repo. induction (summary_ids s) as [|j t IH]; [reflexivity|]. cbn [flat_map filter]. unfold stored at 1.
+    destruct (get_summary s j) as [sm|] eqn:E; cbn [app].
+    - cbn [flat_map]. rewrite E. cbn [app]. f_equal. exact IH.
+    - exact IH. }
+  assert (Hd : forall j, In j (filter (stored s) (summary_ids s)) -> D j).
+  { intros j Hj. apply filter_In in Hj. apply Hdom. exact (proj2 Hj). }
+  constructor; cbn [abs BM.n_repo BM.n_eng BM.n_best BM.e_qs BM.e_fin].
+  - constructor.
+    + intros i Hdi. rewrite Er, (abs_find s _ i Hd (NoDup_filter _ (summary_ids_nodup s)) Hdi).
+      destruct (in_dec N.eq_dec i (filter (stored s) (summary_ids s))) as [_|Hnin]; [reflexivity|].
+      destruct (get_summary s i) as [sm|] eqn:E; [|reflexivity]. exfalso. apply Hnin. apply filter_In.
+      assert (Hs : stored s i = true) by (unfold stored; rewrite E; reflexivity).
+      split; [apply stored_in_ids; exact Hs | exact Hs].
+    + intros x Hx. unfold abs_repo in Hx. apply in_flat_map in Hx. destruct Hx as (j & _ & Hx).
+      destruct (get_summary s j) as [sm|] eqn:E; [|destruct Hx]. destruct Hx as [<-|[]]. exists j, sm. split; [exact E | reflexivity].
+    + intros i Hdi. unfold abs_qs. rewrite (abs_getq s _ i Hd Hdi).
+      destruct (in_dec N.eq_dec i (filter (stored s) (summary_ids s))) as [_|Hnin]; [reflexivity|].
+      unfold get_quality. destruct (get s (KQuality i)) as [v|] eqn:E; [|reflexivity]. exfalso. apply Hnin. apply filter_In.
+      assert (Hs : stored s i = true) by (apply (inv_quality c s I); unfold has; rewrite E; reflexivity).
+      split; [apply stored_in_ids; exact Hs | exact Hs].
+    + exact Hwf.
+    + exact I.
+    + exact Hdom.
+  - destruct (inv_best c s I) as (best & Hb & _). exists best. split; [exact Hb|]. unfold best_of. rewrite Hb. reflexivity.
+  - reflexivity.
+Qed.
+
+(* ... and commutes with import: the repository of the abstraction of the new store IS the repository of the Bft import *)
+Lemma abs_repo_main s b ab : main_case c s b ab -> ids_stored s -> abs_repo (run1 c s b) = ablk b :: abs_repo s.
+Proof.
+  intros M Hids. pose proof (main_not_stored c s b ab M) as Hns.
+  assert (Hn : ~ In (b_id b) (summary_ids s)) by (intros H; rewrite (Hids _ H) in Hns; discriminate).
+  unfold abs_repo. rewrite (summary_ids_main c s b ab M Hn). cbn [flat_map].
+  rewrite (run1_summary s b ab M). destruct (N.eq_dec (b_id b) (b_id b)); [|congruence]. cbn [app]. f_equal.
+  rewrite !flat_map_concat_map. f_equal. apply map_ext_in. intros i Hi. rewrite (run1_summary s b ab M).
+  destruct (N.eq_dec i (b_id b)) as [->|]; [contradiction | reflexivity].
+Qed.
+
+Lemma ids_stored_main s b ab : main_case c s b ab -> ids_stored s -> ids_stored (run1 c s b).
+Proof.
+  intros M Hids. pose proof (main_not_stored c s b ab M) as Hns.
+  assert (Hn : ~ In (b_id b) (summary_ids s)) by (intros H; rewrite (Hids _ H) in Hns; discriminate).
+  intros i Hi. rewrite (summary_ids_main c s b ab M Hn) in Hi. unfold stored. rewrite (run1_summary s b ab M).
+  destruct (N.eq_dec i (b_id b)); [reflexivity|]. destruct Hi as [E|Hi]; [congruence|]. exact (Hids i Hi).
+Qed.
+
+(* the invariant that ties the function to a node along a history *)
+Record absim (s : store) (nd : BM.node) : Prop := mkAbsim {
+  ab_sim : sim s nd;
+  ab_ids : ids_stored s;
+  ab_repo : abs_repo s = BM.n_repo nd }.
+
+Theorem abs_import_step s nd b : wf_cfg c -> absim s nd -> blk_ok s nd b ->
+  absim (run1 c s b) (fst (BM.import true bc nd (ablk b))).
+Proof.
+  intros Hc [S Hids Er] Hb. pose proof (import_sim_step s nd b Hc S Hb) as S'.
+  destruct S as [Rf Hfl Hi Hfo]. destruct (import_sim s nd b Hc Rf Hfl Hb) as (_ & _ & _ & _ & H6 & Hrepo).
+  destruct (crash_code s b =? 0) eqn:E0.
+  - apply N.eqb_eq in E0. destruct (crash_stored s b E0) as (ab & M).
+    constructor; [exact S' | apply (ids_stored_main s b ab M Hids) | rewrite Hrepo, (abs_repo_main s b ab M Hids), Er; reflexivity].
+  - apply N.eqb_neq in E0. pose proof (crash_refused s b E0 H6) as Es. constructor; [exact S' | | ].
+    + rewrite Es. exact Hids.
+    + rewrite Hrepo, Es. exact Er.
+Qed.
+
+Theorem abs_run l : forall s nd, wf_cfg c -> absim s nd -> hist_ok s nd l ->
+  absim (run c s l) (BN.import_all bc true nd (map ablk l)).
+Proof.
+  induction l as [|b t IH]; intros s nd Hc A H; [exact A|].
+  cbn [run fold_left map BN.import_all]. destruct H as [Hb Ht].
+  apply IH; [exact Hc | apply abs_import_step; assumption | exact Ht].
+Qed.
+
+(* what absim says about the function: it refines the store, the coupling holds for it, and it is the Bft node up to the
+   representation of the quality records (same repository list, best, finalized; the same record under every id) *)
+Theorem absim_abs s nd : absim s nd ->
+  refines s (abs s) /\ flags_are_tallies s /\
+  BM.n_repo (abs s) = BM.n_repo nd /\ BM.n_best (abs s) = BM.n_best nd /\
+  BM.e_fin (BM.n_eng (abs s)) = BM.e_fin (BM.n_eng nd) /\
+  (forall i, D i -> BM.get_q (BM.e_qs (BM.n_eng (abs s))) (tr i) = BM.get_q (BM.e_qs (BM.n_eng nd)) (tr i)).
+Proof.
+  intros [[Rf Hfl Hi Hfo] Hids Er]. pose proof Rf as [V (best & Hb & Eb) F].
+  assert (Ra : refines s (abs s)).
+  { apply abs_refines; [exact (v_inv _ _ _ V) | exact (v_dom _ _ _ V) | rewrite Er; exact (v_wf _ _ _ V)]. }
+  split; [exact Ra|]. split; [exact (flags_ok_any s nd (abs s) Rf Ra Hfl)|]. split; [exact Er|]. split; [|split].
+  - cbn [abs BM.n_best]. unfold best_of. rewrite Hb. symmetry. exact Eb.
+  - cbn [abs BM.n_eng BM.e_fin]. symmetry. exact F.
+  - intros i Hdi. pose proof Ra as [Va _ _]. rewrite (v_qs _ _ _ Va i Hdi), (v_qs _ _ _ V i Hdi). reflexivity.
+Qed.
+
+Lemma genesis_absim g : wf_cfg c -> c_g c = b_id g -> b_skeep g = [] -> b_ikeep g = [] ->
+  b_just g = false -> b_comm g = false -> D (b_id g) ->
+  absim (genesis_store g) (BM.init_node (ablk g) master).
+Proof.
+  intros Hc Hg Hk Hi Hj Hcm Hd. pose proof (genesis_sim g Hc Hg Hk Hi Hj Hcm Hd) as S.
+  assert (E : genesis_store g = apply_writes [] (pre_writes [] g true)) by reflexivity.
+  assert (Eids : summary_ids (genesis_store g) = [b_id g]) by (rewrite E, summary_ids_pre; [reflexivity | intros []]).
+  assert (Es : get_summary (genesis_store g) (b_id g) = Some (summary_of g (conf_of [] g))).
+  { rewrite E, s3_summary. destruct (N.eq_dec (b_id g) (b_id g)); [reflexivity | congruence]. }
+  constructor; [exact S | |].
+  - intros i Hi'. rewrite Eids in Hi'. destruct Hi' as [<-|[]]. unfold stored. rewrite Es. reflexivity.
+  - unfold abs_repo. rewrite Eids. cbn [flat_map]. rewrite Es. reflexivity.
 Qed.
 
 End Bridge.
